@@ -17,6 +17,19 @@ keys = set(REG.loop_specs)
 for c in REG.variants:
     if c.loops:
         keys.add(c.key)
+# local names (with the text of their first binding) of every function under contract: lets the verifier recognise a
+# pure rename of a local that a contract mentions (pyvc/verifier.local_renames)
+lkeys = {c.key for c in REG.variants} | set(REG.loop_specs) | set(getattr(REG, "fn_locals", {}))
+locs = {}
+for k in sorted(lkeys):
+    try:
+        mod, cls, fn = frontend.find_function(k)
+    except Exception:
+        continue
+    locs[k] = [[nm, txt] for nm, txt in frontend.local_bindings(fn)]
+with open(os.path.join(ROOT, "local_anchors.json"), "w") as f:
+    json.dump(locs, f, indent=0, sort_keys=True)
+print("local anchors: functions", len(locs))
 out = {}
 for k in sorted(keys):
     try:
